@@ -409,7 +409,7 @@ package engine
 //@   use forkmonitor($1, S, 0, 0, true)
 //@   use forkmonitor($2, S, nConcurrent, 1, nfork == nConcurrent + rangeindex + 1 && (b || !c1failed))
 //@   oncall (*sync.WaitGroup).Wait
-//@     after c1failed := ite(stage == 0, cfailed, c1failed)
+//@     before c1failed := ite(stage == 0, cfailed, c1failed)
 //@   ensures [C05] invalid: rb == nil || nConcurrent <= 0 || mConcurrent <= 0 || nConcurrent + mConcurrent > len(S) ==> result != nil && nfork == 0
 //@   ensures [C05] contall: rb != nil && nConcurrent > 0 && mConcurrent > 0 && nConcurrent + mConcurrent <= len(S) && b ==> nfork == nConcurrent + mConcurrent && ((result != nil) <==> cfailed)
 //@   ensures [C05] stopfirst: rb != nil && nConcurrent > 0 && mConcurrent > 0 && nConcurrent + mConcurrent <= len(S) && !b ==> (c1failed ==> result != nil && nfork == nConcurrent) && (!c1failed ==> nfork == nConcurrent + mConcurrent && ((result != nil) <==> cfailed))
@@ -439,6 +439,7 @@ package engine
 //@   ghost perm = idperm()
 //@   ghost iperm = idperm()
 //@   use selectloop(0, names)
+//@   loop 0 invariant full: len(rules) == rangeindex + 1
 //@   use seqmonitor(rules, false, b)
 //@   use forkghosts()
 //@   use forkmonitor($2, rules, nSort, 0, cursor == nSort && (b || !failed))
@@ -476,6 +477,7 @@ package engine
 //@   ghost perm = idperm()
 //@   ghost iperm = idperm()
 //@   use selectloop(0, names)
+//@   loop 0 invariant full: len(rules) == rangeindex + 1
 //@   use seqmonitorx(rules, false, b, nConcurrent + cursor)
 //@   use forkghosts()
 //@   use forkmonitor($2, rules, 0, 0, cursor == 0 && len(rules) == len(names) && len(names) == nConcurrent + mSort)
@@ -516,13 +518,14 @@ package engine
 //@   ghost perm = idperm()
 //@   ghost iperm = idperm()
 //@   use selectloop(0, names)
+//@   loop 0 invariant full: len(rules) == rangeindex + 1
 //@   use seqmonitor(rules, false, false)
 //@   use forkghosts()
 //@   ghost c1failed bool = false
 //@   use forkmonitor($2, rules, 0, 0, len(rules) == len(names) && len(names) == nConcurrent + mConcurrent)
 //@   use forkmonitor($3, rules, nConcurrent, 1, nfork == nConcurrent + rangeindex + 1 && (b || !c1failed))
 //@   oncall (*sync.WaitGroup).Wait
-//@     after c1failed := ite(stage == 0, cfailed, c1failed)
+//@     before c1failed := ite(stage == 0, cfailed, c1failed)
 //@   ensures [C12] ranimpliesall: nfork > 0 ==> len(rules) == len(names) && len(names) == nConcurrent + mConcurrent && nConcurrent > 0 && mConcurrent > 0
 //@   ensures [C12] invalid: rb == nil || nConcurrent <= 0 || mConcurrent <= 0 || nConcurrent + mConcurrent != len(names) ==> result != nil && nfork == 0
 //@   ensures [C05] contall: nfork > 0 && b ==> nfork == nConcurrent + mConcurrent && ((result != nil) <==> cfailed)
@@ -573,11 +576,11 @@ package engine
 //@   ensures [C11] resultmap: rb != nil ==> fresh(g.returnResult) && dom(g.returnResult) == R
 //@   modifies frame rulerun, g.returnResult
 //@   nopanic
-//@   loop 0 invariant layers: 0 <= i && i <= len(dag) && njoined == nfork && joinedfail == cfailed && !cfailed && rb.Kc == KC0
+//@   loop 0 invariant layers: 0 <= i && i <= len(dag) && njoined == nfork && joinedfail == cfailed && !cfailed && kc == KC0
 //@   loop 0 invariant ferr: (len(eMsg) > 0 <==> cfailed) && (isnil(eMsg) || fresh(arr(eMsg)))
 //@   loop 0 invariant fres: fresh(g.returnResult) && dom(g.returnResult) == R && g.returnResult != nil
 //@   loop 0 decreases len(dag) - i
-//@   loop 1 invariant layers: 0 <= i && i < len(dag) && njoined == nfork && joinedfail == cfailed && !cfailed && rb.Kc == KC0
+//@   loop 1 invariant layers: 0 <= i && i < len(dag) && njoined == nfork && joinedfail == cfailed && !cfailed && kc == KC0
 //@   loop 2 invariant forks: forked(mwg) == rangeindex + 1 && added(mwg) == len(rules) && nfork == njoined + rangeindex + 1 && -1 <= rangeindex && rangeindex < len(rules) && !joinedfail
 //@   loop 2 invariant ferr: (len(eMsg) > 0 <==> cfailed) && (isnil(eMsg) || fresh(arr(eMsg)))
 //@   loop 2 invariant fres: fresh(g.returnResult) && dom(g.returnResult) == R && g.returnResult != nil
